@@ -194,6 +194,19 @@ func (w *wbuild) damageCache(m *Machine) string {
 	w.fs.damaged = true
 	k := 1 + c.Choose(3, "damage-count")
 	rel := ""
+	if c.Choose(3, "damage-wipe-cas") == 2 {
+		// the blob store is lost while the target results remain (e.g. a cache GC)
+		var keep []string
+		for _, f := range files {
+			if strings.Contains(f, "/cas/") {
+				simrt.Fault("blob-missing")
+				os.Remove(f)
+			} else {
+				keep = append(keep, f)
+			}
+		}
+		files, k, rel = keep, 0, "all blobs "
+	}
 	for i := 0; i < k && len(files) > 0; i++ {
 		j := c.Choose(len(files), "damage-file")
 		f := files[j]
